@@ -63,7 +63,8 @@ def r2(ctx, R):
     N = Normalizer(fn)
     sets = [c for c in N.contribs if c.target == 'self.params.do_coll_update' and c.rhs == 'True']
     ok = False
-    if len(sets) == 1 and sets[0].guards:
+    if len(sets) == 1 and len(sets[0].guards) == 1:
+        # exactly this condition and no enclosing one: the switch must be taken on EVERY (re-)initialisation
         nf = bool_nf(ast.parse(sets[0].guards[-1], mode='eval').body)
         ok = nf == ('and', tuple(sorted([('not', 'self.coll.right_is_node'), ('not', 'self.params.do_coll_update')], key=repr)))
     R.check(ok, 'Sweeper.__init__ :: do_coll_update forced when the right end point is not a node', w, 'self.params.do_coll_update = True if not right_is_node and not do_coll_update', [c.describe() for c in sets])
